@@ -18,7 +18,7 @@ func (c *Ctx) mapInit(st *State, t types.Type, r Term) {
 	h := c.heapGet(st, k+"#p", ps)
 	ks := mapKeySort(t)
 	empty := Term{fmt.Sprintf("((as const %s) false)", ArrSort(ks, SBool)), ArrSort(ks, SBool)}
-	st.Heap[k+"#p"] = c.define("heap", Store(h, r, empty))
+	c.setHeap(st, k+"#p", c.define("heap", Store(h, r, empty)))
 	c.heapGet(st, k, mapSort(t))
 }
 
@@ -92,18 +92,18 @@ func (f *Frame) execMapUpdate(in *ssa.MapUpdate, st *State) {
 	val := f.get(in.Value)
 	if kt, ok := f.mapKeyTerm(mt, key); ok {
 		hp := c.heapGet(st, k+"#p", mapPresentSort(mt))
-		st.Heap[k+"#p"] = c.define("heap", Store(hp, x[0], Store(Select(hp, x[0]), kt, TTrue)))
+		c.setHeap(st, k+"#p", c.define("heap", Store(hp, x[0], Store(Select(hp, x[0]), kt, TTrue))))
 		hv := c.heapGet(st, k, mapSort(mt))
 		if singleLeaf(m.Elem()) {
-			st.Heap[k] = c.define("heap", Store(hv, x[0], Store(Select(hv, x[0]), kt, val[0])))
+			c.setHeap(st, k, c.define("heap", Store(hv, x[0], Store(Select(hv, x[0]), kt, val[0]))))
 		} else {
-			st.Heap[k] = c.fresh("mapheap", hv.Sort)
+			c.setHeap(st, k, c.fresh("mapheap", hv.Sort))
 		}
 	} else {
 		hp := c.heapGet(st, k+"#p", mapPresentSort(mt))
-		st.Heap[k+"#p"] = c.fresh("mapheap", hp.Sort)
+		c.setHeap(st, k+"#p", c.fresh("mapheap", hp.Sort))
 		hv := c.heapGet(st, k, mapSort(mt))
-		st.Heap[k] = c.fresh("mapheap", hv.Sort)
+		c.setHeap(st, k, c.fresh("mapheap", hv.Sort))
 	}
 }
 
@@ -112,9 +112,9 @@ func (f *Frame) mapDelete(mt types.Type, m Term, key []Term, st *State) {
 	k := mapKey(mt)
 	hp := c.heapGet(st, k+"#p", mapPresentSort(mt))
 	if kt, ok := f.mapKeyTerm(mt, key); ok {
-		st.Heap[k+"#p"] = c.define("heap", Store(hp, m, Store(Select(hp, m), kt, TFalse)))
+		c.setHeap(st, k+"#p", c.define("heap", Store(hp, m, Store(Select(hp, m), kt, TFalse))))
 	} else {
-		st.Heap[k+"#p"] = c.fresh("mapheap", hp.Sort)
+		c.setHeap(st, k+"#p", c.fresh("mapheap", hp.Sort))
 	}
 }
 
